@@ -15,6 +15,21 @@ R = [
   "compressed files read one decompressed chunk at a time into a preallocated float32 array, each piece starting on the caller's stride grid"),
  ("C03f-reconstruct-gather-with-forward-index", [(NP, "            np.take(chunk, chns, axis=1).tofile(file_out)\n", "            np.take(chunk, np.argsort(chns), axis=1).tofile(file_out)\n")],
   "one read per window in the converter, one gather for all shanks in the split, and a reconstruction that stacks the shank files and gathers with the inverse permutation"),
+ ("C04f-check-np24-sync-run-dropped", [(NP, "            runs[sh] = _contiguous_runs(self.shank_info[sh][\"chns\"])\n            if ish > 0:\n                # the sync trace comes last in each of the shank files: compare it only once\n                runs[sh] = runs[sh][:-1]\n",
+                                         "            # the sync trace comes last in each of the shank files: compare it only once\n            runs[sh] = _contiguous_runs(self.shank_info[sh][\"chns\"] if ish == 0 else self.shank_info[sh][\"chns\"][:-1])\n")],
+  "check_NP24 compares raw int16 samples run by run; the run table of the shanks after the first is built without their last channel (the duplicated sync)"),
+ ("C05f-car-group-mean-reduceat-first-index", [(VO, "            ref[:] = np.add.reduceat(x, first, axis=0) / counts[:, np.newaxis]\n",
+                                                   "            ref[:] = 0\n            np.add.at(ref, igroup, x)\n            ref /= counts[:, np.newaxis]\n")],
+  "car labels the traces once with np.unique(return_inverse) and subtracts per-label references; the group means are accumulated by label (np.add.at), not by positional blocks"),
+ ("C06f-worker-batch-grid-split-extra-tail-batch", [(VO, "        while first_s < max_s:\n", "        while first_s < max_s and (first_s == 0 or first_s + 2 * SAMPLES_TAPER < _sr.ns):\n")],
+  "every worker handles the batches that START inside its chunk (no batch destriped twice); a grid point is a batch only when the batch before it did not reach the end of the recording"),
+ ("C07f-fshift-closed-form-phase-ramp-odd-length", [(FO, "def _unit_delay_phase(nf):\n", "def _unit_delay_phase(nf, ns):\n"),
+                                                     (FO, "    phase = np.linspace(0.0, -pi, nf)\n", "    phase = -2 * pi * np.arange(nf) / ns\n"),
+                                                     (FO, "    phase = _unit_delay_phase(nf).reshape(shape)\n", "    phase = _unit_delay_phase(nf, ns).reshape(shape)\n")],
+  "fshift looks the phase ramp of a one-sample delay up in a cache keyed on (number of bins, length): -2*pi*k/ns for both parities"),
+ ("C09f-imro-uniform-gain-fast-path-prefix-match", [(SG, "            if site and imro.count(f\" {ap} {lf}\") == n_sites:\n",
+                                                      "            if site and imro.count(f\" {ap} {lf})\") + imro.count(f\" {ap} {lf} \") == n_sites:\n")],
+  "regexes compiled once; NP1 conversion short-circuits when every IMRO entry carries the first entry's (ap, lf) gain pair, counted with patterns closed on both sides (3A entries end with ')', 3B entries go on with ' ')"),
 ]
 
 if __name__ == "__main__":
